@@ -122,3 +122,66 @@ var kindPrimitive = map[string][]string{
 	"MSG_TYPE_ENTITY_DELETE_REQUEST":                     {"models.(*Session).RemoveEntity", "models.(*Participant).RemoveEntity", "models.(*EntityComponentStore).DeleteByEntityID"},
 	"MSG_TYPE_PARTICIPANT_JOIN_REQUEST":                  {"models.(*Session).AddParticipant", "models.(*Session).HandleFrame"},
 }
+
+// ruleFieldAnchors: the unexported struct fields each rule function names (in canonical forms such as
+// "recv.moduleStates", in lock keys such as "Session.frameMutex", or in literal-field lookups). A rule
+// whose anchor has been renamed or removed cannot be evaluated: the run is UNDECIDED for it ("anchor not
+// found") instead of reporting what would be a false violation. Fields are looked up through embedded and
+// by-value sub-structs, so moving one onto a sub-struct without renaming it keeps the anchor.
+type fieldAnchor struct{ pkg, typ, field string }
+
+func fa(pkg, typ string, fields ...string) []fieldAnchor {
+	var out []fieldAnchor
+	for _, f := range fields {
+		out = append(out, fieldAnchor{pkg, typ, f})
+	}
+	return out
+}
+
+func cat(xs ...[]fieldAnchor) []fieldAnchor {
+	var out []fieldAnchor
+	for _, x := range xs {
+		out = append(out, x...)
+	}
+	return out
+}
+
+const (
+	pkgVikja = repoMod + "/modules/vikja"
+	pkgOdal  = repoMod + "/modules/odal"
+	pkgDagaz = repoMod + "/modules/dagaz"
+)
+
+var (
+	faCurrent = fa(pkgWS, "RealtimeHandler", "currentSession", "currentParticipant")
+	faModules = cat(fa(pkgVikja, "Module", "currentSession", "currentParticipant", "state"), fa(pkgOdal, "Module", "currentSession", "currentParticipant", "state"), fa(pkgDagaz, "Module", "currentSession", "currentParticipant", "state"))
+)
+
+var ruleFieldAnchors = map[string][]fieldAnchor{
+	"ruleJoinedGuard":      faCurrent,
+	"rulePairedState":      faCurrent,
+	"ruleSenderExcluded":   faCurrent,
+	"ruleNotifyGated":      faCurrent,
+	"ruleOwnerGuard":       faCurrent,
+	"ruleCustomMessage":    faCurrent,
+	"ruleLeaveCallers":     faCurrent,
+	"ruleLeaveComplete":    cat(faCurrent, fa(pkgWS, "RealtimeHandler", "stopFrameHandling"), fa(pkgModels, "Participant", "entityIDs")),
+	"ruleModuleCleanup":    cat(faCurrent, faModules),
+	"ruleModuleInit":       cat(faCurrent, faModules, fa(pkgModels, "Session", "moduleStates", "moduleMutex")),
+	"ruleLatencyStart":     cat(faCurrent, fa(pkgWS, "RealtimeHandler", "clientID")),
+	"ruleLatencyReport":    fa(pkgModels, "SignedLatency", "sender", "privateKey"),
+	"ruleEntityActions":    cat(faModules, fa(pkgVikja, "State", "entityActions"), fa(pkgOdal, "State", "assetInstances")),
+	"ruleSnapshot":         cat(faModules, fa(pkgModels, "Session", "participants", "entities"), fa(pkgModels, "Entity", "pose")),
+	"ruleStoreContracts":   fa(pkgModels, "EntityComponentStore", "entityComponents", "idIndex", "nameIndex", "ids"),
+	"ruleSubscriptions":    fa(pkgModels, "EntityComponentStore", "subscriptions"),
+	"ruleIDGenerator":      cat(fa(pkgModels, "SequentialIDGenerator", "currentID", "reusableIDs"), fa(pkgModels, "Session", "frameHandlerIDs"), fa(pkgModels, "SessionStore", "ids")),
+	"ruleBroadcastShape":   fa(pkgModels, "Session", "participants", "participantMutex"),
+	"ruleIDSources":        cat(faCurrent, fa(pkgModels, "Session", "participantIDs", "entityIDs"), fa(pkgModels, "SessionStore", "ids"), fa(pkgOdal, "State", "assetInstanceIDs")),
+	"ruleRegistry":         cat(fa(pkgModels, "SessionStore", "sessions", "ids", "mutex"), fa(pkgModels, "Session", "participants", "entities", "moduleStates", "frameHandlers", "entityComponents", "participantIDs", "entityIDs")),
+	"ruleFramePair":        cat(fa(pkgModels, "Session", "closeFrameChan", "frameHandlers", "frameHandlerIDs", "frameMutex"), fa(pkgWS, "RealtimeHandler", "stopFrameHandling")),
+	"ruleFunnelOnce":       cat(fa(pkgWS, "handler", "disconnectChan"), fa(pkgWS, "handlerWithLogs", "closeSummaryWorker")),
+	"ruleGaugePair":        fa(pkgWS, "handlerWithMetrics", "appKey", "publicEndpoint"),
+	"ruleMainLineBlocking": cat(fa(pkgWS, "handler", "sendChan"), fa(pkgModels, "Session", "closeFrameChan")),
+	"ruleRelaySync":        fa(pkgWS, "handler", "sendChan", "sender"),
+	"ruleAtomicity":        fa(pkgModels, "SessionStore", "sessions"),
+}
